@@ -41,6 +41,9 @@ type codec struct {
 	// canon, if set, is the form compared for equality instead of enc (the
 	// compressed P2P form is not canonical: the compressor may choose freely).
 	canon func(v any) ([]byte, error)
+	// encMayFail tells whether an encoding error of a DECODED value is by
+	// design (the decoder documents a wider domain than the encoder).
+	encMayFail func(err error) bool
 	// seedEnc, if set, produces the mutation seeds instead of enc (it must be
 	// deterministic; the LZ4 compressor is not).
 	seedEnc func(v any) ([]byte, error)
